@@ -136,7 +136,7 @@ LastClose == out[Len(out)].close
 \* after the response: close, or skip the unread rest of a streamed body and go on with the next request
 \* the connection must be closed after a response when the request or the handler asked for it, or when the
 \* response announced it
-MustClose == LastClose \/ reqs[cur].close \/ reqs[cur].hclose \/ reqs[cur].partial
+MustClose == LastClose \/ reqs[cur].close \/ reqs[cur].hclose \/ reqs[cur].partial \/ cfg.nokeep   \* nokeep: option DisableKeepalive
 CloseAfter == /\ phase = "after" /\ MustClose
               /\ phase' = "closed"
               /\ UNCHANGED <<reqs, cfg, sent, eof, rd, cur, cons, interim, hlog, out, topen, pairReq, tlog>>
@@ -221,7 +221,7 @@ NothingAfterClose == \A k \in 1 .. Len(out) - 1 : ~out[k].close
 
 \* C02: when the connection is over and everything was delivered, the outcome is a function of the script:
 \* the handled requests are exactly the prefix up to the first request that closes / is rejected
-Stops(i) == reqs[i].close \/ reqs[i].hclose \/ Rejectable(i) \/ cfg.wfail = i
+Stops(i) == reqs[i].close \/ reqs[i].hclose \/ Rejectable(i) \/ cfg.wfail = i \/ cfg.nokeep
 FirstStop == IF \E i \in 1 .. N : Stops(i)
              THEN CHOOSE i \in 1 .. N : Stops(i) /\ \A j \in 1 .. i - 1 : ~Stops(j)
              ELSE N + 1
@@ -231,7 +231,7 @@ HandledOK(n) == \/ n = ExpectedHandled
                 \/ (FirstStop <= N /\ reqs[FirstStop].partial /\ ~MustReject(FirstStop) /\ ~reqs[FirstStop].close
                     /\ ~reqs[FirstStop].hclose /\ cfg.wfail # FirstStop /\ n = FirstStop - 1)
 \* a voluntary server close (allowed) can only shorten the outcome; without it the outcome is exact
-FinalIndependent == (phase = "closed" /\ \A k \in 1 .. Len(out) : out[k].close => (reqs[out[k].i].close \/ reqs[out[k].i].hclose \/ out[k].kind = "reject"))
+FinalIndependent == (phase = "closed" /\ \A k \in 1 .. Len(out) : out[k].close => (reqs[out[k].i].close \/ reqs[out[k].i].hclose \/ cfg.nokeep \/ out[k].kind = "reject"))
                         => \/ HandledOK(Len(hlog))
                            \/ ((cfg.streaming \/ cfg.deny) /\ Len(hlog) < ExpectedHandled)   \* CloseUnread
 =============================================================================
